@@ -5,7 +5,7 @@ from ..common import Names, rat, run_impl
 from . import c01
 
 PROP = "C13"
-LEAN_MODULE = "VK.Props.C13"
+LEAN_MODULE = "VK.Check.C13"
 THEOREMS = [
     "VK.C13_irv",
     "VK.C13_sntv",
